@@ -204,8 +204,12 @@ def flatten_outcome(t, path, via):
     if via == "copy":
         return a04.outcome(lambda: a04.flat_canon(tree.flatten(copy.deepcopy(t), ast.ComponentRef.from_tuple(tuple(path))), True))
     if via == "sympy":
+        # (the generated text orders variables by the parser's running counter, which objects made for API
+        #  edits do not continue: only success / exception class is compared; what matters is what the call
+        #  leaves behind in the tree)
         from pymoca.backends.sympy.generator import generate
-        return a04.outcome(lambda: generate(t, name, {}))
+        r = a04.outcome(lambda: generate(t, name, {}))
+        return ("ok", "generated") if r[0] == "ok" else r
     if via == "xml":
         from pymoca.backends.xml.generator import generate
         return a04.outcome(lambda: generate(t, name))
@@ -213,6 +217,38 @@ def flatten_outcome(t, path, via):
 
 
 def check_history(ctx, case, drv):
+    pending = []
+    try:
+        run_history(ctx, case, drv, pending)
+    finally:
+        settle(ctx, case, pending)
+
+
+def settle(ctx, case, pending):
+    """direct oracle for every flatten step of a finished history"""
+    fresh = {}
+    small = {k: case[k] for k in ("lib", "ops")}
+    for (n, i, ntrees, text, path, via, got) in pending:
+        key = (text, tuple(path), via)
+        if key not in fresh:
+            ft = a04.outcome(lambda: c05.parse(text))
+            if ft[0] != "ok" or ft[1] is None:
+                fresh[key] = ("exc", "does-not-parse")
+            else:
+                fresh[key] = flatten_outcome(ft[1], path, via)
+        exp = fresh[key]
+        ctx.count("op-flatten-%s-%s" % (via, "ok" if exp[0] == "ok" else "fails-fresh"))
+        if ("exc", "RecursionError") in (got, exp) and got != exp:
+            # the interpreter's recursion limit is hit at a depth that depends on the caller's stack: not an outcome
+            ctx.count("recursion-limit-not-compared")
+        elif got != exp and exp != ("exc", "does-not-parse"):
+            ctx.violation("flattening a class of a tree after copies and edits differs from flattening it on a fresh parse of "
+                          "that tree's own source (%s; via %s; %s)" % (c05.describe(exp, got), via, "original tree" if i == 0 else "a copy"),
+                          dict(small, upto=n + 1), c05._short(exp), c05._short(got), "history")
+            return
+
+
+def run_history(ctx, case, drv, pending):
     c05.quiet_logs()
     lib0, ops = case["lib"], case["ops"]
     text0 = a04.render(lib0)
@@ -319,32 +355,38 @@ def check_history(ctx, case, drv):
             i, path, via = op[1], op[2], op[3]
             if i >= len(trees):
                 continue
+            # the real tree first; what a fresh parse of this tree's regenerated source gives is computed after the
+            # whole history (settle), so that the oracle's own calls never sit between two steps of the history
             text = a04.render(trees[i]["lib"])
-            key = (text, tuple(path), via)
-            if key not in fresh:
-                ft = a04.outcome(lambda: c05.parse(text))
-                if ft[0] != "ok" or ft[1] is None:
-                    fresh[key] = ("exc", "does-not-parse")
-                else:
-                    fresh[key] = flatten_outcome(ft[1], path, via)
-            exp = fresh[key]
             got = flatten_outcome(trees[i]["tree"], path, via)
-            ctx.count("op-flatten-%s-%s" % (via, "ok" if exp[0] == "ok" else "fails-fresh"))
-            if ("exc", "RecursionError") in (got, exp) and got != exp:
-                # the interpreter's recursion limit is hit at a depth that depends on the caller's stack: not an outcome
-                ctx.count("recursion-limit-not-compared")
-            elif got != exp and exp != ("exc", "does-not-parse"):
-                ctx.violation("flattening a class of a tree after copies and edits differs from flattening it on a fresh parse of "
-                              "that tree's own source (%s; tree %s of %d)" % (c05.describe(exp, got), "original" if i == 0 else "copy", len(trees)),
-                              dict(small, upto=n + 1), c05._short(exp), c05._short(got), "history")
-                return
+            pending.append((n, i, len(trees), text, list(path), via, got))
         else:
             raise HarnessError("bad op %r" % (op,))
 
 
 # ---- generator -----------------------------------------------------------------------------------
+SW_MODEL = dict(a04.new_cls("SwT", "model"), comps=[dict(name="start", text="Real start;")])
+SW_TYPE = a04.new_cls("SwT", "type", short="Real(min = 1)")
+
+
+def swap_kit(rng):
+    """a class `SwT` that is a model or an alias of Real, a class with a component of that type, and
+    two classes that pass a modification down to that component (both spellings)"""
+    u = a04.new_cls("SwU", "model")
+    u["comps"] = [dict(name="t", text="SwT t;"), dict(name="w", text="Real w;")]
+    u["eqs"] = ["w = 1;"]
+    w1 = a04.new_cls("SwW1", "model")
+    w1["comps"] = [dict(name="m", text="SwU m(t(start = 5));")]
+    w2 = a04.new_cls("SwW2", "model")
+    w2["comps"] = [dict(name="m", text="SwU m(t.start = 7);")]
+    return [copy.deepcopy(rng.choice([SW_MODEL, SW_TYPE])), u, w1, w2]
+
+
 def gen_history(ctx, rng, nops):
     lib, g = a04.gen_library(rng, nmodels=rng.randint(2, 5))
+    has_kit = rng.random() < 0.5
+    if has_kit:
+        lib["classes"] += swap_kit(rng)
     descs = [copy.deepcopy(lib)]     # the generator keeps its own mirror to issue applicable edits
     ops = []
     fresh_n = [0]
@@ -395,12 +437,68 @@ def gen_history(ctx, rng, nops):
         return [x for x in cands if not reaches(d, x, encl)]
     last_edit = None
     ncopy = 0
+    def vias():
+        return rng.choice(["direct", "direct", "copy", "xml", "sympy"])
     for _ in range(nops):
         r = rng.random()
         i = rng.randrange(len(descs))
         d = descs[i]
-        paths = [list(p) for p in a04.class_paths(d)]
+        paths = [list(p) for p in a04.class_paths(d) if not p[0].startswith("Sw")]
         full = [p for p in paths if a04.find_desc(d, p)["short"] is None]
+        pat = rng.random()
+        if has_kit and pat < 0.10 and a04.find_desc(d, ["SwT"]) is not None:
+            # flatten, (copy,) replace SwT by a same-named class of the other kind, flatten its users again
+            w = rng.choice([["SwW1"], ["SwW2"], ["SwU"]])
+            ops.append(["flatten", i, w, vias()])
+            j = i
+            if rng.random() < 0.6 and len(descs) < 6:
+                ops.append(["copy", i, ncopy < 2])
+                descs.append(copy.deepcopy(d))
+                ncopy += 1
+                j = len(descs) - 1 if rng.random() < 0.7 else i
+            dj = descs[j]
+            old = a04.find_desc(dj, ["SwT"])
+            new = copy.deepcopy(SW_TYPE if old["short"] is None else SW_MODEL)
+            ops.append(["edit", j, dict(kind="remove_class", parent=[], name="SwT"), False])
+            ops.append(["edit", j, dict(kind="add_class", parent=[], desc=new), False])
+            dj["classes"] = [c for c in dj["classes"] if c["name"] != "SwT"] + [copy.deepcopy(new)]
+            ops.append(["flatten", j, w, rng.choice(["direct", "copy", "xml"])])
+            ops.append(["flatten", j, rng.choice([["SwW1"], ["SwW2"]]), "direct"])
+            ops.append(["flatten", rng.randrange(len(descs)), rng.choice([["SwW1"], ["SwW2"]]), "direct"])
+            continue
+        if pat < 0.18 and full:
+            # backend generate, API edit of the same class, the same generate again
+            p = rng.choice(full)
+            via = rng.choice(["xml", "xml", "sympy"])
+            name = fresh_name("s")
+            text = "Real %s(%s = %d);" % (name, rng.choice(a04.ATTRS), rng.randint(1, 9))
+            ops.append(["flatten", i, p, via])
+            ops.append(["edit", i, dict(kind="add_symbol", cls=p, name=name, text=text), False])
+            a04.find_desc(d, p)["comps"].append(dict(name=name, text=text))
+            ops.append(["flatten", i, p, via])
+            ops.append(["flatten", i, p, "direct"])
+            continue
+        if pat < 0.26:
+            # backend generate, then a class is removed from / added to the root; its users are flattened
+            tops = [p for p in paths if len(p) == 1 and users(d, p[0])]
+            if tops:
+                y = rng.choice(tops)
+                us = users(d, y[0])
+                ops.append(["flatten", i, rng.choice(us), rng.choice(["sympy", "xml"])])
+                saved = copy.deepcopy(a04.find_desc(d, y))
+                ops.append(["edit", i, dict(kind="remove_class", parent=[], name=y[0]), False])
+                d["classes"] = [c for c in d["classes"] if c["name"] != y[0]]
+                ops.append(["flatten", i, rng.choice(us), "direct"])
+                if rng.random() < 0.5 and len(descs) < 6:
+                    ops.append(["copy", i, ncopy < 2])
+                    descs.append(copy.deepcopy(d))
+                    ncopy += 1
+                    ops.append(["flatten", len(descs) - 1, rng.choice(us), "direct"])
+                if rng.random() < 0.6 and not saved["prefix"]:
+                    ops.append(["edit", i, dict(kind="add_class", parent=[], desc=saved), False])
+                    d["classes"].append(copy.deepcopy(saved))
+                    ops.append(["flatten", i, rng.choice(us), rng.choice(["direct", "copy"])])
+                continue
         if (r < 0.18 and len(descs) < 5) or (ncopy == 0 and r < 0.4):
             ops.append(["copy", i, ncopy < 2])      # the first two copies of a history are also put to the model
             descs.append(copy.deepcopy(d))
@@ -491,7 +589,7 @@ def gen_history(ctx, rng, nops):
                     p = rng.choice([list(x) for x in a04.class_paths(descs[i])] or [p])
             # (the SymPy/XML generators order variables by the parser's running counter, which an object made
             #  for an API edit does not continue; the backends' own step — deep copy, then flatten — is "copy")
-            via = rng.choice(["direct", "direct", "copy"])
+            via = rng.choice(["direct", "direct", "copy", "xml", "sympy"])
             ops.append(["flatten", i, p, via])
     return dict(stream="gen", lib=lib, ops=ops)
 
@@ -523,7 +621,7 @@ def run(ctx):
         run_case(ctx, c, drv)
     nlib, nops = (60, 15) if quick else (1600, 40)
     for i in range(nlib):
-        if ctx.time_left() < 0:
+        if ctx.time_left() < (12 if quick else 0):
             ctx.notes.append("stopped by time budget after %d histories" % i)
             break
         run_case(ctx, gen_history(ctx, ctx.rng, nops), drv)
